@@ -1,5 +1,5 @@
 ---- MODULE Itp_Quick ----
-(* instance wrapper for C11 (TLC evaluates zero-arity definitions eagerly: one module per instance) *)
+(* instance wrapper for C11: one module per instance (initial-state predicate of MC_ItpRoundTrip) *)
 EXTENDS ItpRoundTripExport
-MCMols == TLCEval(MolsQuick(0))
+MCInit == QuickInit
 ====
